@@ -40,6 +40,7 @@ MIN_REACH = {
     "merges_adding_fractional_labels_to_integer_axis": {"quick": 4, "thorough": 60},
     "merges_adding_longer_labels_to_a_string_axis": {"quick": 3, "thorough": 50},
     "merges_widening_a_narrow_stored_axis": {"quick": 6, "thorough": 100},
+    "second_merges_giving_precedence_to_stored_complex_data": {"quick": 10, "thorough": 150},
     "listings_checked": {"quick": 500, "thorough": 8000},
     "harvester_name_checks": {"quick": 50, "thorough": 800},
     "harvester_deletes_with_backup": {"quick": 12, "thorough": 200},
@@ -241,6 +242,9 @@ def run_case(ctx, case):
                           and any(dd in v["dims"] for v in case["vars"] if v["name"] in keep)), None)
             if keep and split:
                 sub = orig[keep]
+                if case["dseed"] % 4 in (1, 2) and split in sub[keep[0]].dims and not any(sub[k].dtype.kind == "c" for k in keep):
+                    # (one more output, complex-valued: an amplitude next to the numbers)
+                    sub = sub.assign(amp=sub[keep[0]].astype(complex) * (0.5 - 2j))
                 part1 = sub.isel({split: slice(0, 1)})
                 part2 = sub.isel({split: slice(1, None)})
                 if case["coordt"][split] == "int" and case["dseed"] % 3 == 0:
@@ -282,8 +286,15 @@ def run_case(ctx, case):
                 with quiet():
                     xyzpy.save_merge_ds(part1.copy(deep=True), path, **kw)
                 listing_ok("save_merge_ds #1")
+                kw2 = dict(kw)
+                if case["dseed"] % 4 in (1, 2):
+                    # the stored data has precedence (nothing overlaps here, so the policy changes nothing about the result)
+                    kw2["overwrite"] = False
+                    ctx.count("second_merges_giving_precedence_to_the_stored_data")
+                    if any(sub[k].dtype.kind == "c" for k in sub.data_vars):
+                        ctx.count("second_merges_giving_precedence_to_stored_complex_data")
                 with quiet():
-                    xyzpy.save_merge_ds(part2.copy(deep=True), path, **kw)
+                    xyzpy.save_merge_ds(part2.copy(deep=True), path, **kw2)
                 listing_ok("save_merge_ds #2")
                 with quiet():
                     back = xyzpy.load_ds(path, engine=engine)
